@@ -89,12 +89,34 @@ func loadFor(repo string, s *spec.Spec, tags []string, env []string, overlay map
 		if err != nil && res == nil {
 			return nil, nil, err
 		}
+		// analyse the program with new helper functions inlined (internal/an/inline.go);
+		// any failure of the transformation leaves the untransformed program in place
+		cur := overlay
+		var notes []an.InlineNote
+		for round := 0; round < 4; round++ {
+			ov, ns := an.NewHelperOverlay(res, cur)
+			if ov == nil || an.SameOverlay(ov, cur) {
+				break
+			}
+			res2, err2 := load.Load(load.Config{Dir: dir, Patterns: l.Patterns, Tags: tags, Env: env, Overlay: ov, AllDeps: fromSource})
+			if err2 != nil {
+				if os.Getenv("LNDLINT_DEBUG_INLINE") != "" {
+					fmt.Fprintln(os.Stderr, "inline round failed:", err2)
+				}
+				break
+			}
+			res, cur = res2, ov
+			notes = append(notes, ns...)
+		}
+		if len(notes) > 0 {
+			fmt.Printf("note: analysed with new helper functions inlined at their call sites (line numbers of those files refer to the transformed source): %s\n", an.NotesString(notes))
+		}
 		loads = append(loads, res)
 		var roots []string
 		for _, p := range res.Roots {
 			roots = append(roots, an.Short(p.PkgPath))
 		}
-		meta = append(meta, map[string]any{"dir": dir, "patterns": l.Patterns, "tags": tags, "env": env, "root_packages": roots, "files_parsed": res.Files, "wall_s": res.WallS})
+		meta = append(meta, map[string]any{"dir": dir, "patterns": l.Patterns, "tags": tags, "env": env, "root_packages": roots, "files_parsed": res.Files, "wall_s": res.WallS, "inlined_helpers": notes})
 	}
 	prog := an.NewProg(loads...)
 	prog.Overlay = overlay
@@ -508,9 +530,11 @@ func cmdNames(args []string) int {
 			if f.Decl == nil || f.Obj == nil {
 				continue
 			}
-			if ns := an.NamesOf(f.Info(), f.Decl); len(ns) > 0 {
-				all[f.ID] = ns
+			ns := an.NamesOf(f.Info(), f.Decl)
+			if ns == nil {
+				ns = []an.NameEntry{}
 			}
+			all[f.ID] = ns
 		}
 	}
 	b, _ := json.Marshal(all)
